@@ -63,6 +63,12 @@ def _minmax(is_min):
                 acc = cls(z3.If(eb < ea, eb, ea) if is_min else z3.If(eb > ea, eb, ea))
             elif is_num(acc) and is_num(b):
                 acc = (b if b < acc else acc) if is_min else (b if b > acc else acc)
+            elif hasattr(acc, '__pyvc_float__') or hasattr(b, '__pyvc_float__'):
+                fa = acc.__pyvc_float__(engine, cx, lineno) if hasattr(acc, '__pyvc_float__') else acc
+                fb = b.__pyvc_float__(engine, cx, lineno) if hasattr(b, '__pyvc_float__') else b
+                if not (is_num(fa) and is_num(fb)):
+                    raise Unsupported(f'min/max of symbolic tensors {acc!r},{b!r}')
+                acc = (b if fb < fa else acc) if is_min else (b if fb > fa else acc)
             else:
                 raise Unsupported(f'min/max of {acc!r},{b!r}')
         return acc
